@@ -168,8 +168,14 @@ def run_config(cfg, res):
   r = gen.rng(cfg['seed'], 'C06names')
   names = [gen.metric_name(r) for _ in range(200)]
 
+  from carbon.util import parseDestinations
+
   def dest(n):
-    return (n[0], ports[n], n[1])
+    # through the daemon's own DESTINATIONS parser (what setupRelayProcessor does with the configured strings)
+    host = '[%s]' % n[0] if ':' in n[0] else n[0]
+    text = '%s:%d' % (host, ports[n]) + (':%s' % n[1] if n[1] is not None else '')
+    (d,) = parseDestinations([text])
+    return d
 
   def fresh_router(live_in_order, rf=8, diverse=False):
     ns.settings['REPLICATION_FACTOR'] = rf
